@@ -421,8 +421,13 @@ class JinjaInterp:
             if len(set(ends)) > 1:
                 self.neutrality[(ti.name, self.cur_macro, f"if {expr_text(n.test)}")] = \
                     f"branches of `if {expr_text(n.test)}` (line {n.lineno}) leave different lexical states {sorted(set(ends))}"
-            for k in set().union(*[set(e) for e in envs]):
-                vals = [e.get(k) for e in envs if k in e]
+            # early exit idiom: `{% if not alias.macro %} ... {% continue %}{% endif %}` - only the fall-through arms flow on
+            exits = [any(isinstance(x, (nodes.Continue, nodes.Break)) for x in n.body)] + \
+                [any(isinstance(x, (nodes.Continue, nodes.Break)) for x in el.body) for el in n.elif_] + \
+                [any(isinstance(x, (nodes.Continue, nodes.Break)) for x in n.else_) if n.else_ else False]
+            live = [e for e, ex in zip(envs, exits) if not ex] or envs
+            for k in set().union(*[set(e) for e in live]):
+                vals = [e.get(k) for e in live if k in e]
                 env[k] = join_all(vals)
             return ends[0]
         if isinstance(n, nodes.For):
